@@ -20,7 +20,10 @@ MANIFEST = dict(
          "algebraic identities on the exponent vectors and discovers which places encode the same quantity. The "
          "driver calls UnitConverter::convert for all pairs, reads the constants, pushes one-atom files through the "
          "real LAMMPS reader/writer and queries tools::Elements; each factor is compared with the CODATA-2018/SI "
-         "evaluation of its vector (rel 5e-5 = four significant digits) and each identity with 1.",
+         "evaluation of its vector (rel 5e-5 = four significant digits) and each identity with 1. A second, "
+         "mode-H spec (ElementsHist) enumerates every history of tools::Elements lookups (hits, misses, boundary "
+         "masses) up to depth 3 (thorough: simulated to depth 8); each is replayed on one real object and every "
+         "answer must equal that of a fresh object and the spec's answer class (queries leave no trace).",
     note="Trusted: TLC, the generator values embedded in the checker (self-checked through three CODATA relations), "
          "the text driver protocol. Not covered: constants added to constants.h later (the driver lists them by "
          "name), other trajectory formats' unit handling (C08), VdW radii / polarizabilities of tools::Elements, "
@@ -71,6 +74,93 @@ def termstr(terms):
     return " * ".join("%s^%d" % (pid(t["p"]), t["x"]) for t in terms)
 
 
+# ---------------------------------------------------------------------------------------------
+# mode H: call histories on one tools::Elements object (spec/units/ElementsHist.tla)
+TOL_EL = 0.01      # the tolerance LAMMPSDataReader passes to the reverse lookup
+PARTIAL_TABLES = ("getVdWChelpG", "getVdWMK", "getPolarizability")   # cover only some elements
+
+
+def _histories(ctx, exe, violation):
+    """TLC enumerates call histories; each is replayed on ONE real Elements object and every step is also put
+    to a fresh object.  Verdict: persistent answer = fresh answer (and = the spec's answer class)."""
+    runs = [("MCElementsHistQuick", dict())]
+    if not ctx.quick:
+        runs.append(("MCElementsHistSim", dict(simulate=3000, depth=9, seed=ctx.seed)))
+    hists = []
+    for cfg, kw in runs:
+        res = vlib.tlc("units", "MCElementsHist", cfg=cfg + ".cfg", workers=4, timeout=1200, heap="2g", **kw)
+        vlib.tlc_must_hold(res, "ElementsHist: NoTrace, HistoryIndependent, OnlyElements")
+        ctx.add_tlc(cfg + ("(simulate)" if kw else ""), res)
+        hists += [r["h"] for r in res.records if "h" in r]
+    if not ctx.quick:
+        # negative control: the spec must SEE the operator[] slip (a miss inserts a default entry)
+        res = vlib.tlc("units", "MCElementsHist", cfg="MCElementsHistBug.cfg", workers=2, timeout=600, heap="1g")
+        if res.ok:
+            raise vlib.InfraError("ElementsHist negative control: InsertOnMiss=TRUE did not violate NoTrace")
+        ctx.add_tlc("MCElementsHistBug(negative control, violation expected)", res)
+    if not hists:
+        raise vlib.InfraError("no call histories exported")
+    # distinct histories only (simulation repeats)
+    uniq = {}
+    for hh in hists:
+        uniq[json.dumps(hh, sort_keys=True)] = hh
+    hists = list(uniq.values())
+    # real masses of the symbolic bases, from a fresh object
+    bases = sorted({c["n"] for hh in hists for c in hh if c["m"] in ("getEleShortClosestInMass",
+                    "isMassAssociatedWithElement") and c["n"] not in ("zero", "mid")} | {"C", "N"})
+    r0, cr0 = vlib.run_items(exe, [("m", ["hnew"] + ["hcall getMass %s" % b for b in bases])])
+    if cr0:
+        raise vlib.InfraError("driver died on fresh mass queries: %s" % cr0)
+    mass = {}
+    for b, out in zip(bases, r0["m"][1:]):
+        tok = out[0].split()
+        if tok[0] != "hres" or not tok[2].startswith("="):
+            raise vlib.InfraError("no mass for base %s: %s" % (b, out))
+        mass[b] = float(tok[2][1:])
+
+    def cmdline(c):
+        if c["m"] in ("getEleShortClosestInMass", "isMassAssociatedWithElement"):
+            base = 0.0 if c["n"] == "zero" else (0.5 * (mass["C"] + mass["N"]) if c["n"] == "mid" else mass[c["n"]])
+            return "hcall %s %r %r" % (c["m"], base + c["k"] * TOL_EL / 2.0, TOL_EL)
+        return "hcall %s %s" % (c["m"], c["n"])
+
+    items = [(i, ["hnew"] + [cmdline(c) for c in hh]) for i, hh in enumerate(hists)]
+    results, crashes = vlib.run_items(exe, items)
+    for i, hh in enumerate(hists):
+        ctx.traces += 1
+        if len({(c["m"], c["n"], c["k"]) for c in hh}) > 1:
+            ctx.nontriv(("history", json.dumps(hh, sort_keys=True)))
+        if i in crashes:
+            violation("history:Elements:crash", "driver died replaying %s: %s" % (hh, crashes[i]), {"history": hh})
+            continue
+        for j, c in enumerate(hh):
+            out = results[i][1 + j]
+            tok = out[0].split() if out else ["?"]
+            if tok[0] != "hres" or len(tok) != 3:
+                violation("history:Elements:%s:driver" % c["m"], "step %d of %s: %s" % (j, hh, out), {"history": hh})
+                break
+            pers, fresh = tok[1], tok[2]
+            if pers != fresh:
+                violation("history:Elements:%s:vs-fresh" % c["m"],
+                          "after %s the call %s answers %s on the used object but %s on a fresh one" % (
+                              [cmdline(x)[6:] for x in hh[:j]], cmdline(c)[6:], pers, fresh),
+                          {"history": hh, "step": j, "commands": items[i][1]})
+                break
+            exp = c["exp"]
+            if exp == "either" or (exp == "found" and c["m"] in PARTIAL_TABLES):
+                continue
+            good = {"throw": pers == "!", "true": pers == "=1", "false": pers == "=0",
+                    "found": pers.startswith("=") and (c["m"] != "getEleShortClosestInMass" or pers == "=" + c["n"])}
+            if not good.get(exp, False):
+                violation("history:Elements:%s:vs-spec" % c["m"],
+                          "step %d (%s) answers %s, the spec expects %s" % (j, cmdline(c)[6:], pers, exp),
+                          {"history": hh, "step": j, "commands": items[i][1]})
+                break
+    ctx.sample({"history": hists[len(hists) // 2]})
+    ctx.extra["element_histories"] = len(hists)
+    vlib.log("C20: %d Elements call histories replayed (persistent vs fresh object)" % len(hists))
+
+
 def run(ctx):
     bindir = vlib.ensure_build(["drv_units"])
     exe = bindir + "/drv_units"
@@ -79,7 +169,9 @@ def run(ctx):
     if getattr(ctx, "replay", None):
         only_key = json.load(open(ctx.replay)).get("key")
         vlib.log("replay: re-evaluating the obligation set, reporting only key", only_key)
-    ctx.rule = ("one evaluation per TLC-emitted obligation: value obligations (place, exponent vector) and "
+    ctx.rule = ("Elements call histories: every sequence of Depth calls over the alphabet of MCElementsHist "
+                "(non-trivial = at least two different calls); obligations: "
+                "one evaluation per TLC-emitted obligation: value obligations (place, exponent vector) and "
                 "identity obligations (round trip, transitivity, derived = quotient, same quantity in two places); "
                 "non-trivial = non-zero vector / at least two distinct places")
     ctx.assumptions += [
@@ -105,7 +197,7 @@ def run(ctx):
     recs = res.records
     if len(recs) != res.distinct:
         raise vlib.InfraError("obligation export incomplete: %d of %d" % (len(recs), res.distinct))
-    ctx.exhaustive = True
+    ctx.exhaustive = ctx.quick     # thorough adds simulated (sampled) call histories
     obs = [r for r in recs if r["kind"] not in ("element", "declared")]
     elements = sorted((r for r in recs if r["kind"] == "element"), key=lambda r: r["z"])
     decl = [r for r in recs if r["kind"] == "declared"]
@@ -371,5 +463,6 @@ def run(ctx):
     ctx.extra["elements_known"] = known
     if elements:
         ctx.sample({"element": elements[5], "library": elres[elements[5]["z"]]})
+    _histories(ctx, exe, violation)
     vlib.log("C20: %d value + %d identity obligations, %d elements known to the library, %d warnings" % (
         nval, sum(v for k, v in bykind.items() if k not in ("value", "selfcheck", "near")), known, len(warnings)))
